@@ -574,8 +574,9 @@ def replay_j_islands(obligation, model, meta):
         buses = list(range(nisl))
         a = np.array(buses, dtype=int)
         v = np.array([nb + b for b in buses], dtype=int)
-        stub = SimpleNamespace(Bus=SimpleNamespace(n_islanded_buses=nisl, islanded_a=a, islanded_v=v),
-                               config=SimpleNamespace(ipadd=1, diag_eps=eps), dae=SimpleNamespace(gy=gy))
+        from contracts.packutil import Stub
+        stub = Stub(_cls=System, Bus=SimpleNamespace(n_islanded_buses=nisl, islanded_a=a, islanded_v=v),
+                    config=SimpleNamespace(ipadd=1, diag_eps=eps), dae=SimpleNamespace(gy=gy))
         System.j_islands(stub)
         after = np.array([[stub.dae.gy[int(i), int(j)] for j in range(m)] for i in range(m)])
         bad = None
@@ -640,12 +641,36 @@ def replay_system_j_update(obligation, model, meta):
     return {'confirmed': False, 'tried': 1}
 
 
+def replay_model_j_update(obligation, model, meta):
+    """native run of the real Model.j_update on a stub model: whatever the connection status of its devices (all on, some off, all
+    off), every generated Jacobian entry is stored in place into the triplet array of the same name and position"""
+    from types import SimpleNamespace
+    import numpy as np
+    from andes.core.model.model import Model
+    from contracts.packutil import Stub
+    for u in ([1.0, 1.0], [1.0, 0.0], [0.0, 0.0]):
+        arrays = {j: [np.full(2, -1.0), np.full(2, -1.0)] for j in ('fx', 'fy', 'gx', 'gy')}
+        keep = {j: list(arrays[j]) for j in arrays}
+        vals = {j: (np.array([k + 1.0, k + 1.5]), np.array([k + 2.0, k + 2.5])) for k, j in enumerate(('fx', 'fy', 'gx', 'gy'))}
+        stub = Stub(_cls=Model, n=2, u=SimpleNamespace(v=np.array(u)), class_name='M', in_use=True,
+                    calls=SimpleNamespace(j={j: (lambda *a, j=j: vals[j]) for j in arrays}, vjac={j: [0.0, 0.0] for j in arrays}),
+                    j_args={j: [] for j in arrays}, triplets=SimpleNamespace(vjac=arrays))
+        Model.j_update(stub)
+        for j in arrays:
+            for k in range(2):
+                if arrays[j][k] is not keep[j][k] or not np.array_equal(arrays[j][k], vals[j][k]):
+                    return {'confirmed': True, 'inputs': {'u': u, 'jacobian': j, 'entry': k},
+                            'observed': 'triplet values %r, the generated function returned %r' % (np.asarray(arrays[j][k]).tolist(), vals[j][k].tolist()),
+                            'native_cmd': 'Model.j_update(stub)'}
+    return {'confirmed': False, 'tried': 3}
+
+
 def add_obligations(pack, ss, tier, pid='C03'):
     pack.assume('System.j_islands is put under contract for the default in-place mode (config.ipadd=1) only')
     pack.trust('kvxopt.spmatrix(V, I, J, size) builds the matrix with V[k] accumulated at (I[k], J[k]); ipadd/ipset add/set in place',
                'hand-written j_numeric of a model or block appends to constant Jacobian names only (so position #idx of '
                'triplets.vjac[<variable name>] is the idx-th generated entry); no stock model defines j_numeric')
-    items = [(model_j_update(pid),)] + [(c,) for c in jac_eq_var_name(pid)] + [(system_store_sparse_pattern(pid),), (model_store_sparse_pattern(pid),), (system_j_update(pid), None, replay_system_j_update), (j_islands(pid), None, replay_j_islands)] + [(c,) for c in dae_restore_sparse(pid) + dae_build_pattern(pid)]
+    items = [(model_j_update(pid), None, replay_model_j_update)] + [(c,) for c in jac_eq_var_name(pid)] + [(system_store_sparse_pattern(pid),), (model_store_sparse_pattern(pid),), (system_j_update(pid), None, replay_system_j_update), (j_islands(pid), None, replay_j_islands)] + [(c,) for c in dae_restore_sparse(pid) + dae_build_pattern(pid)]
     from contracts import fn_sequence as Q
     items += [(c,) for c in Q.jactriplet(pid)]
     run_contracts(pack, items)
